@@ -1382,23 +1382,27 @@ fn preprocess_initial_file(
     let mut macros = Vec::new();
     let mut condition_chain = ConditionChain::new();
 
-    // Add initial macros
-    for (name, value) in initial_defines {
-        let tokens = match TokenStream::new(value, SourceLocation::UNKNOWN)
-            .suppress_trailing_endline()
-            .read_to_end()
-        {
-            Ok(tokens) => tokens,
-            Err(_) => return Err(PreprocessError::InvalidDefine(SourceLocation::UNKNOWN)),
-        };
-
-        macros.push(Macro {
-            name: name.to_string(),
-            is_function: false,
-            num_params: 0,
-            tokens,
-            location: SourceLocation::UNKNOWN,
-        });
+    // Initial defines behave exactly like #define lines placed before the first line of the entry file
+    if !initial_defines.is_empty() {
+        let mut contents = String::new();
+        for (name, value) in initial_defines {
+            contents.push_str("#define ");
+            contents.push_str(name);
+            contents.push(' ');
+            contents.push_str(value);
+            contents.push('\n');
+        }
+        let file_id = file_loader.source_manager.add_file(
+            FileName("<initial defines>".to_string()),
+            contents.clone(),
+        );
+        preprocess_included_file(
+            &mut tokens,
+            file_loader,
+            InputFile { file_id, contents },
+            &mut macros,
+            &mut condition_chain,
+        )?;
     }
 
     preprocess_included_file(
